@@ -139,6 +139,17 @@ def c11_drain(text, recs):
     """After everything was removed and flushed and three primary + three index cycles ran: every non-current primary
     file is empty or unlinked, every unreferenced non-current index file is empty or unlinked, storage never grew
     during the cycles, and the cycles after the '#fixedpoint' mark change no file."""
+    if "#budgeted-drain" in text:
+        gb = [r for r in recs if r["i"] >= 0 and r["op"] == "igcb" and (r.get("extra") or {}).get("dir")]
+        if len(gb) < 120:
+            return None
+        last = gb[-1]["extra"]["dir"]
+        files = last["files"]
+        inums = sorted(int(n[2:]) for n in files if n.startswith("i.") and n[2:].isdigit())
+        for n in inums[:-1]:
+            if n not in last["idx_ref"] and files["i.%d" % n] != 0:
+                return (gb[-1]["i"], "C11: unreferenced non-current index file i.%d still holds %d bytes after 120 time-limited index GC cycles" % (n, files["i.%d" % n]))
+        return None
     nfix = 3
     gcs = [r for r in recs if r["i"] >= 0 and r["op"] in ("pgc", "igc") and (r.get("extra") or {}).get("dir")]
     if len(gcs) < 9:
